@@ -883,7 +883,7 @@ func (e *Enc) initGhosts(st *bstate, ref string, t types.Type) {
 	sort.Strings(names)
 	for _, n := range names {
 		g := e.P.reg.Ghosts[n]
-		if !strings.HasPrefix(g.KeyType, "*") {
+		if !strings.HasPrefix(g.KeyType, "*") || e.P.tpkgs[g.Pkg] == nil {
 			continue
 		}
 		kt, err := e.evalType(g.KeyType[1:], e.P.tpkgs[g.Pkg])
